@@ -11,4 +11,7 @@ def notForgotten (reg : List (String × Nat)) (lastPass : Option Nat) (mapKeys :
     | some dl, some p => !(decide (dl < p))
     | _, _ => true
 
+/-- the requirement on a state of the model (its ghost fields are functions of the op lines only) -/
+def holds (s : St) (mapKeys : List String) : Bool := notForgotten s.reg s.lastPass mapKeys
+
 end LunarVerif.C18.Vacuum
